@@ -30,7 +30,8 @@ metas=[json.load(open(f)) for f in sorted(glob.glob('/verif/seeded/*/meta.json')
 for m in metas:
     sd+=f"| {m['id']} | {m['breaks_property']} | {m['needs_to_manifest']} | " + "; ".join("`"+x+"`" for x in m['detected_by'][:2]) + " |\n"
 caught=sum(1 for m in metas if m['detected'])
-sd+=f"\n{len(metas)} changes written by independent sub-agents (each saw only the property text and its own scratch worktree); all compile, pass the unedited suite, and have a demonstration that fails with the change only (confirmed with `seed_confirm.sh`). {caught} of {len(metas)} are caught. "
+own=sum(1 for m in metas if m['id'].startswith('self_'))
+sd+=f"\n{len(metas)-own} changes written by independent sub-agents (each saw only the property text and its own scratch worktree) plus {own} of our own; all compile, pass the unedited suite, and have a demonstration that fails with the change only (confirmed with `seed_confirm.sh` against the current HEAD of /repo). {caught} of {len(metas)} are caught by the checks as committed (first passes: round 1 21 of 36, round 2 13 of 22, round 3 8 of 16 — the misses are what the later harnesses were written for). "
 sd+=open('/verif/seeded/NOTES.md').read() if glob.glob('/verif/seeded/NOTES.md') else ""
 sd+="\n\n"
 def repl(s,head,nexthead,body):
